@@ -25,7 +25,7 @@ def subsequence(small, big):
 def run(pid, tier, seed):
     chk = framework.Check(pid, tier, seed)
     chk.rule = RULE
-    chk.assumptions = ["random.randrange is wrapped from outside to record the draws; its uniformity is not modelled",
+    chk.assumptions = ["the sampler's randrange (the tracer's own random.Random, or random.randrange) is wrapped from outside to record the draws; its uniformity is not modelled",
                        "as C02: CPython's event stream and opcode classification are observed"]
     chk.partial = "'about one call in N' is a statistical test on the recorded draws; everything else is theorem + correspondence"
     proof = framework.lean_check(pid)
